@@ -428,15 +428,18 @@ func VerifHarness_C05_O6() {
 
 func VerifHarness_C06_O7() { VerifHarness_C05_O6() }
 
-// C08/O7 — hostile input amid node-level gossip, then fair gossip: at a chosen
-// step an outsider sends the next gossip target a push whose wire event has
+// C08/O7 — hostile input amid node-level gossip, then fair gossip: before step 3
+// (thorough: 3 or 9) an outsider sends the next gossip target a push whose wire event has
 // SYMBOLIC creator id and index (and a well-formed signature that cannot
 // verify), and a sync request with a symbolic limit.  The node neither crashes nor changes; the run goes on
 // and after the fair suffix everything accepted is committed by all four nodes
 // ("never makes the node unable to process subsequent valid messages").
 func VerifHarness_C08_O7() {
-	at := []int{3, 9}[verifChoice("hostileInputBeforeStep", 2)]
-	nw := verifNetRunHostile(16, 1, 8, 1000, -1, false, at)
+	at := 3
+	if verifTier() > 0 {
+		at = []int{3, 9}[verifChoice("hostileInputBeforeStep", 2)]
+	}
+	nw := verifNetRunHostile(12, 1, 8, 1000, -1, false, at)
 	_ = nw
 	verifReach("end")
 }
